@@ -171,7 +171,9 @@ def check_case(case, rec):
         if case.get("endless"):
             classes.add("endless_source")
         # was an event open when the stop arrived?
-        dec = audio.decisions(prefix, case["audio"], run.thr)
+        # labels only (the oracle is split() of the prefix): an endless source pads the last partial
+        # window with silence, which may bring its energy near the threshold - no guard band here
+        dec = audio.decisions(prefix, case["audio"], run.thr, guard=False)
         st_ = stretches(dec, case["win"][2])
         open_event = bool(st_) and st_[-1][2] == len(dec) - 1
         if open_event and 0 < nblocks < total_blocks:
